@@ -12,6 +12,16 @@ BFS = "explicit-state BFS over API call histories on the real objects (states me
 ENGINES = [
     {"name": "dp", "path": "harness/h_dp.c, harness/h_par.c, harness/h_keylen.c, harness/families.c", "serves_properties": ["C01", "C02", "C03", "C04", "C07", "C10", "C14"],
      "kind_free_text": "bounded-exhaustive differential exploration of the real functions against an independent specification model over structured input families, every block count, every key length"},
+    {"name": "sched", "path": "harness/h_thr.c, harness/thr_ops.h, harness/h_tsan.c, harness/ctl_race.c", "serves_properties": ["C18"],
+     "kind_free_text": "controlled scheduler: coroutine threads, scheduling points at instrumented loads/stores that hit the discovered conflict set, iterative context bounding DFS, cold-start combinations in fresh processes, positive control (lost update), plus a free-running ThreadSanitizer pass"},
+    {"name": "ct", "path": "harness/h_ct.c, harness/ct_prog.h, harness/h_ct2.c, harness/lackey_cmp.c, harness/ctl_table.c", "serves_properties": ["C08"],
+     "kind_free_text": "2-safety by enumeration: branch/address traces of every public-parameter combination compared across a secret alphabet, at IR level (clang coverage callbacks) and at machine level (valgrind lackey on the shipped objects)"},
+    {"name": "buf", "path": "harness/h_buf.c", "serves_properties": ["C09"],
+     "kind_free_text": "exhaustive buffer placements (alignments, lengths, overlaps) under valgrind memcheck with byte-exact NOACCESS red zones"},
+    {"name": "cfg", "path": "harness/h_cfg.c", "serves_properties": ["C12"], "kind_free_text": "one deterministic battery run in every build configuration of the cross product; section digests must agree"},
+    {"name": "cpu", "path": "harness/h_cpu.c, harness/tramp.S", "serves_properties": ["C13"], "kind_free_text": "enumerated CPU/OS models behind the guarded CPUID seam, and the real CPU under arbitrary caller register/stack contents"},
+    {"name": "ard", "path": "harness/h_ard.cpp", "serves_properties": ["C19"], "kind_free_text": "Arduino classes compiled on the host against the C library: families, bounded histories, CTR cut sequences"},
+    {"name": "cli", "path": "checks.py (check_c20), harness/h_cli.c", "serves_properties": ["C20"], "kind_free_text": "the example tools as subprocesses against an oracle program making the library calls directly"},
     {"name": "apimc", "path": "harness/mc.c, harness/alloc.c, harness/obj.c, harness/h_ctr.c, harness/h_sched.c, harness/h_life.c", "serves_properties": ["C03", "C04", "C05", "C06", "C14", "C15", "C16", "C17"],
      "kind_free_text": "explicit-state exploration of API histories on the real objects: BFS, states = histories replayed on fresh objects and merged by context byte image, forked child with crash/hang attribution, page allocator with ledger, guard pages, wipe check and fault injection behind a link-time seam"},
 ]
@@ -39,6 +49,21 @@ CHECKS = {
     "C07": dict(level="exploration", engine="dp", design_ref="4/C07", technique="exhaustive enumeration of block counts and batch byte sweeps against the single-block functions",
                 text="Every block count 0..25 x {encrypt, decrypt} x in-place/out-of-place x data families with per-block distinct contents x key configurations x every back end, plus a BYTE sweep through one full batch (every byte value at every position of several lanes), compared block by block with the single-block functions (Mantis: independent tweak per block). Byte counts that are not whole blocks must return 0 and leave the output untouched; parallel_size must be the positive multiple of the block size that belongs to the back end.",
                 note="Single-block functions are tied to the specification by C01/C02; counts above 3P+1 not run."),
+    "C08": dict(level="exploration", engine="ct", design_ref="4/C08", technique="trace equality (2-safety) decided by exhaustive enumeration over a secret alphabet per public-parameter combination; traces from coverage instrumentation and from valgrind lackey",
+                text="For every public-parameter combination (operation program x cipher variant x key / tweak / counter length x rounds x mode x call size around the block and batch sizes x back end) the operation is executed for a baseline secret and for every alternative of the alphabet (zero / all-ones fills and byte substitutions at every position of key, tweak, counter, data and per-call tweak, carry-chain counters). Level 1 records every basic-block edge and every load/store address of library code (clang -O3, 64- and 32-bit word builds) - ~2.4x10^5 traces quick; level 2 records every instruction address and memory access of the shipped gcc -O3 objects under valgrind lackey for a sample of combinations (all of them in the thorough tier). All traces of a combination must be identical. Both levels carry a table-lookup S-box as positive control.",
+                note="Secrets outside the alphabet, variable-latency instructions and other compilers are not covered; 32-byte vector accesses are only seen at level 2."),
+    "C09": dict(level="exploration", engine="buf", design_ref="4/C09", technique="exhaustive enumeration of buffer placements under valgrind memcheck with NOACCESS red zones (dynamic, no solver)",
+                text="Every public function with buffer arguments on every back end, on the shipped gcc -O3 objects under valgrind memcheck: each buffer sits at each alignment offset 0..31 inside a region whose remaining bytes are NOACCESS (byte exact on both sides), so a read or write outside the extent given by the arguments is reported at the faulting instruction; single-block functions run all 32x32 input/output alignments and every overlap offset -B..+B; key, tweak and counter arguments every legal length; bulk calls the LENS lengths with exact aliasing at every offset. Results must equal the aligned, non-overlapping call. A one-byte over-read is the positive control.",
+                note="Alignment offsets above 31 and partial overlap of bulk buffers are not run; undefined-value errors are disabled here (C11)."),
+    "C11": dict(level="exploration", engine="dp", design_ref="4/C11", technique="enumeration of the C01-C10 histories under MemorySanitizer with explicit shadow tests, plus a stack/object paint differential across -O0/-O3",
+                text="The histories of C01, C02, C05, C07 and C10 (thorough: C04 too) are executed (a) in a clang MemorySanitizer build with an explicit shadow test on every output block, key schedule, context image and return value, with caller objects and the stack below each call poisoned, and (b) in the shipped -O3 and an -O0 build twice each with the stack below every call and the caller's objects painted 0x00 vs 0xA5; the per-result-kind digests of everything returned must be bit-identical across the four runs.",
+                note="Only the paths in those histories; heap blocks come from calloc in every back end."),
+    "C12": dict(level="exploration", engine="cfg", design_ref="4/C12", technique="exhaustive enumeration of the build-configuration cross product x a fixed battery; digest equality",
+                text="Configurations = {64,32}-bit word paths x {unaligned fast paths, byte-wise} x {SIMD 128+256, 128 only, none, none + byte-order-neutral scalar code} x {gcc, clang} x {-O0..-O3}: all 128 in the thorough tier, a 13-build covering subset (every switch value and every switch/compiler pair) in the quick tier, each built through the repository Makefile using the guarded platform-switch hook. One deterministic battery (block families for all variants incl. tweakable and Mantis, CTR streams with carries, short counters, irregular cuts and mid-stream re-key, parallel ECB for every count, every key length) runs pinned to each back end of each build; every section digest must be identical across all runs.",
+                note="Real big-endian / 32-bit hosts and NEON are out of reach; the reference configuration is tied to the specification by C01-C07."),
+    "C13": dict(level="model_checking", engine="cpu", design_ref="4/C13", technique="exhaustive enumeration of environment (CPU/OS model) states behind a guarded CPUID/XGETBV seam, executed on the real init functions",
+                text="14,336 consistent CPU/OS model states (max basic leaf x out-of-range-leaf behaviour x SSE2 x OSXSAVE x AVX x XCR0 x AVX2 x leaf-7 sub-leaf-1 contents x junk in all other feature bits) are answered through the guarded seam; every state x each of the six init functions runs twice with different caller registers and stack paint, on builds with and without the 256-bit back end: the selected vtable / function table and parallel_size must be the widest back end that is compiled in and usable in that state (never wider). On the real CPU the six inits run under 14 caller-register/stack patterns x 3 through an assembly trampoline against the compiler's own CPU detection - this is what exposes a CPUID query that leaves the sub-leaf register as found.",
+                note="x86 only; model states needing a back end the host cannot execute are skipped and counted."),
     "C10": dict(level="exploration", engine="dp", design_ref="4/C10", technique="exhaustive enumeration of key lengths x entry points against the zero-padded key and the reference model",
                 text="Every key length 0..64 plus far-out lengths through all ten SKINNY key-setting entry points on every back end (and sizes x rounds x modes through the three Mantis ones), on the shipped, 32-bit-word and -O0 builds. Accepted lengths must give the same schedule image, the same ciphertexts and the specification's result for the same bytes zero-padded to the next primary size, with the stack painted differently before the two calls. Rejected lengths must return 0 with the existing object byte-identical, and the key is a single byte flush against a PROT_NONE page so that rejection has to precede any read.",
                 note="Key contents: two fills plus byte sweeps over the bytes beyond the last primary boundary."),
@@ -54,6 +79,15 @@ CHECKS = {
     "C17": dict(level="model_checking", engine="apimc", design_ref="4/C17", technique=BFS + " with a wipe check at free()",
                 text="BFS (depth <= 8) over set-up and data calls ending in cleanup for each object kind and back end, on the shipped gcc -O3 build and on a clang -O3 build. At the wrapped free() every byte of the block (whole allocation, alignment slack and base pointer included) must be zero; cases count as non-trivial only when the block held key-dependent non-zero bytes before cleanup.",
                 note="Only memory handed to free() is inspected."),
+    "C18": dict(level="model_checking", engine="sched", design_ref="4/C18", technique="stateless exploration of thread interleavings under a controlled scheduler with a preemption bound (iterative context bounding), scheduling points at instrumented shared accesses",
+                text="18 operations (every public function; private objects and read-only use of shared key schedules / parallel objects) run as coroutines in all ordered pairs and selected triples. The library is instrumented (clang trace-loads/stores); a discovery execution classifies every access and builds the conflict set W (granules written by one thread and touched by another); every schedule with <= 2 (thorough 3) preemptions at accesses to W is executed and each thread's results must equal its sequential results; a store to static memory or into an object passed as pointer-to-const is a violation by itself. Each combination also runs cold, in a fresh process whose first library calls happen inside the threads, so lazily initialised state is caught. With W empty (the unchanged tree) one execution decides a combination. A harness-owned lost update must be found in every run, and the same bodies run free on pthreads under ThreadSanitizer (incl. cold-start processes and a racy control).",
+                note="Sequentially consistent memory; libc calls are atomic to the scheduler; 32-byte vector accesses are not instrumented (TSan pass covers them)."),
+    "C19": dict(level="exploration", engine="ard", design_ref="4/C19", technique="bounded-exhaustive enumeration of input families, operation histories and cut sequences against the C library",
+                text="The Arduino sources compile unchanged with the host g++ (portable path). All 11 block-cipher classes run the BG/BYTE/PAIR/BIT families against the C library; the four tweakable classes and Mantis8 run every history up to depth 4 (thorough 5) over {setKey, setTweak (values, NULL, wrong length), swapModes, clear+setKey, setKey(wrong length)} against the C library keyed afresh with the last key / tweak / mode; CTR<T> over the five Skinny-128 classes runs every sequence of up to 3 (4) encrypt lengths from LENS(16) for IVs with carries through every byte in lock step with skinny128_ctr_* on the generic back end.",
+                note="The AVR inline-assembly path is out of reach; use before the first setKey and setCounterSize < 16 have no C counterpart."),
+    "C20": dict(level="exploration", engine="cli", design_ref="4/C20", technique="enumeration of tool invocations (file lengths x key/counter/tweak lengths x modes) against direct library calls",
+                text="The three tools built by examples/Makefile run as subprocesses over file lengths around the block size and the 1024-byte I/O chunk x both block sizes x legal key lengths (incl. in-between) x absent / full / short counters and tweaks x encrypt / -d; outputs must be byte-identical to a separate oracle program that makes the library calls directly, and running the tool again must restore the input (whole blocks for ecb / tweak). An invalid-option menu (39 invocations) must exit non-zero and create no output file.",
+                note="Mid-file I/O errors are not injected."),
 }
 
 NOT_YET = "check not built yet in this round (see DESIGN.md section 4 for the plan)"
